@@ -11,6 +11,7 @@ Record case := mk {
   c_pc : N; c_m : N;
   c_obs : list (N * N * bytes);        (* observed fragments: (context id, control byte, payload) *)
   c_one_pdv : bool;                    (* every observed PDU had exactly one PDV and len(encode()) = payload+12 *)
+  c_refused : bool;                    (* Association.send raised in the caller's thread, before anything was handed over *)
 }.
 
 Definition triple_of (f : frag) : N * N * bytes := (f_ctx f, f_ctl f, f_payload f).
@@ -26,8 +27,8 @@ Fixpoint beq_triples (a b : list (N * N * bytes)) : bool :=
 (* correspondence: the model computes exactly the observed fragments *)
 Definition check_corr (c : case) : bool :=
   match dimse_encode (c_cmd c) (c_data c) (c_pc c) (c_m c) with
-  | Ok fs => beq_triples (map triple_of fs) (c_obs c) && c_one_pdv c
-  | Err _ => false
+  | Ok fs => beq_triples (map triple_of fs) (c_obs c) && c_one_pdv c && negb (c_refused c)
+  | Err _ => c_refused c && is_nil (c_obs c)
   end.
 
 (* the property's own oracle, evaluated on the observation alone *)
@@ -52,7 +53,10 @@ Fixpoint obs_flags_ok (normal last : N) (l : list (N * N * bytes)) : bool :=
 Definition check_spec (c : case) : bool :=
   let obs := c_obs c in
   let (cs, ds) := span_cmd obs in
-  c_one_pdv c
+  (* within a maximum that cannot carry a single fragment (1..6) nothing can be sent: the caller must be
+     told, the message must not vanish silently and nothing may reach the provider *)
+  if unusable_max (c_m c) then c_refused c && is_nil obs else
+  negb (c_refused c) && c_one_pdv c
   && forallb (fun t => (lenN (snd t) + 6 <=? eff_max (c_m c)) && (ctx3 t =? c_pc c) && negb (is_nil (snd t))) obs
   && forallb (fun t => is_data_ctl (ctl3 t)) ds
   && obs_flags_ok 1 3 cs
